@@ -40,3 +40,47 @@ LEVEL_TEXT = ("Machine-checked theorems about the wait every blocking call goes 
               "poll argument, result and virtual time with the model.")
 LEVEL_NOTE = ("Trusted: Lean kernel; axioms propext/Quot.sound/Classical.choice; model validated on the grid; vos shim. "
               "Stop() from a signal handler making Run() return is proved in C08's model and exercised with a real SIGINT in thorough.")
+
+# ---- real signals (testing, labelled as such: the sanity net below the model) -------------------------
+SIGNAL_OPS = [
+    ("recvfrom -1 3 data", "value 3"), ("recvfrom 200 3 none", "none"), ("recvfrom 200 2 data", "value 3"),
+    ("recvfrom 0 1 none", "none"), ("listen -1 2 data", "value 1"), ("listen 150 3 none", "none"),
+    ("tcprecv -1 3 data", "value 4"), ("tcprecv 100 2 none", "none"), ("run -1 1 sigint", "returned"),
+    ("run -1 3 usr1first", "returned-after-stop"), ("step 120 3", "returned"), ("step -1 2", None),
+]
+
+
+def extra_checks(runner, rng, tier, stats, seed):
+    import vlib
+    exe = vlib.build_harness("signals", "plain", ["scen/signals.cpp"])
+    ops = [o for o, e in SIGNAL_OPS if e is not None]
+    reps = 1 if tier == "quick" else 5
+    out = []
+    n = 0
+    for rep in range(reps):
+        res = vlib.run_cases(exe, [("sig", ops)], jobs=1, timeout_per_case=120)["sig"]
+        cur = None
+        for line in res:
+            if line.startswith("-> "):
+                if cur is None:
+                    continue
+                exp = dict(SIGNAL_OPS).get(cur)
+                got = line[3:]
+                if got.startswith("event-failed"):
+                    cur = None  # environment trouble, not a verdict
+                    continue
+                n += 1
+                if exp is not None and not got.startswith(exp):
+                    path = vlib.write_replay(ID, "C16_%s_signals.replay" % tier,
+                                             "property: C16\nkind: impl-spec-failure (real signals)\nop: %s\nexpected: %s\nobserved: %s\n"
+                                             "replay: build harness/scen/signals.cpp against /repo and feed the op line\n" % (cur, exp, got))
+                    out.append(("spec", path, True, "real signal changed the outcome of '%s': %s (expected %s)" % (cur, got, exp)))
+                cur = None
+            else:
+                cur = line.strip()
+    stats["real_signal_runs"] = n
+    return out
+
+
+def extra_coverage(stats):
+    return {"real_signal_operations_checked": stats.get("real_signal_runs", 0)}
